@@ -169,6 +169,21 @@ Proof.
 Qed.
 Print Assumptions distrib_nonempty_included_cover.
 
+(* for ALL pairwise disjoint roots (trees with the cpuset structure), ALL until and both orders,
+   when every distribution leaf below the roots is a single PU (always the case when until reaches
+   the PU level) and n does not exceed the number of PUs below the roots: the n sets are pairwise
+   disjoint.  (With heavier leaves the statement is false: distrib_literal_shallow_until.) *)
+Theorem distrib_disjoint : forall roots n until flags B,
+  1 <= n -> (flags = 0 \/ flags = HWLOC_DISTRIB_FLAG_REVERSE) ->
+  Forall (root_ok B) roots -> rsum roots <= B -> B * n + B <= 2 ^ 32 ->
+  pairwise_disjoint (map fst roots) = true ->
+  Forall (fun r => unit_leaves until (snd r) = true) roots ->
+  n <= rsum roots ->
+  exists sets, hwloc_distrib roots n until flags = (0%Z, 0, D_ok (map Some sets)) /\
+               N.of_nat (List.length sets) = n /\ pairwise_disjoint sets = true.
+Proof. exact hwloc_distrib_disjoint. Qed.
+Print Assumptions distrib_disjoint.
+
 (* the chunk expression, exactly, where nothing wraps: consecutive differences of ceil(x*n/tot) *)
 Theorem distrib_chunk_exact : forall gw w n tot,
   0 < tot -> gw + w <= tot -> tot * n + tot <= 2 ^ 32 ->
@@ -184,6 +199,9 @@ Proof.
   - vm_compute. discriminate.
   - exists (cs ex_root, ex_root). split; [now left|]. vm_compute. discriminate.
 Qed.
+Example ex_distrib_disjoint_hyps :
+  pairwise_disjoint (map fst ex_roots) = true /\ Forall (fun r => unit_leaves INT_MAX (snd r) = true) ex_roots /\ 3 <= rsum ex_roots.
+Proof. split; [reflexivity|]. split; [constructor; [vm_compute; reflexivity|constructor]|vm_compute; discriminate]. Qed.
 Example ex_distrib :
   hwloc_distrib ex_roots 3 INT_MAX 0 = (0%Z, 0, D_ok [Some (bs_of_N 1); Some (bs_of_N 2); Some (bs_of_N 12)]) /\   (* PU3 gets no chunk: merged into the previous set *)
   hwloc_distrib ex_roots 3 INT_MAX HWLOC_DISTRIB_FLAG_REVERSE = (0%Z, 0, D_ok [Some (bs_of_N 8); Some (bs_of_N 4); Some (bs_of_N 3)]) /\
